@@ -55,15 +55,24 @@ func (s *replaySpec) resize(c int) {
 	s.resizeTo = append(s.resizeTo, c)
 }
 
-// minCap over Add-call indices [from, to] (capacity in force when each call was made).
+// minCap over Add-call indices [from, to] (capacity in force when each call was made). Intervals in which
+// the history was switched off (size 0) are skipped: nothing is checked against or added to the history
+// while it is off, so what was remembered before is still among "the most recent N checked" once a size
+// N > 0 is in force again (N -> 0 -> N keeps the history). The result is 0 when the history was off at
+// either end: a check made while it is off is not remembered, and nothing is refused while it is off.
 func (s *replaySpec) minCap(from, to int) int {
+	if s.capAt(from) == 0 || s.capAt(to) == 0 {
+		return 0
+	}
 	m := 1 << 30
 	for i := len(s.resizeAt) - 1; i >= 0; i-- {
 		if s.resizeAt[i] > to {
 			continue
 		}
-		// this setting is in force from resizeAt[i] until the next resize
-		if s.resizeTo[i] < m {
+		// this setting is in force from resizeAt[i] until the next resize; a later resize at the same
+		// index replaces it before any call was made under it
+		inForce := i == len(s.resizeAt)-1 || s.resizeAt[i+1] > s.resizeAt[i]
+		if inForce && s.resizeTo[i] > 0 && s.resizeTo[i] < m {
 			m = s.resizeTo[i]
 		}
 		if s.resizeAt[i] <= from {
@@ -71,6 +80,16 @@ func (s *replaySpec) minCap(from, to int) int {
 		}
 	}
 	return m
+}
+
+// capAt is the size in force when Add call number idx was made.
+func (s *replaySpec) capAt(idx int) int {
+	for i := len(s.resizeAt) - 1; i >= 0; i-- {
+		if s.resizeAt[i] <= idx {
+			return s.resizeTo[i]
+		}
+	}
+	return s.resizeTo[0]
 }
 
 // judge returns "refuse", "accept" or "either" for the next Add of (id, salt), and records it.
@@ -233,6 +252,65 @@ func c07Sequential(c *vk.Ctx) {
 				}
 			}
 			c.Sample(map[string]any{"regime": rg.name, "initial_capacity": capacity, "ops": opsPer})
+		}
+	}
+}
+
+// c07OffAndOn: the history is switched off and on again mid-stream (N -> 0 -> N2). What was checked before
+// the switch-off and is still among the most recent min(N, N2) checks must be refused afterwards; what was
+// presented while the history was off is served. Deterministic shapes, judged by the same spec.
+func c07OffAndOn(c *vk.Ctx) {
+	r := c.Rng
+	shapes := []struct{ n, before, off, n2 int }{
+		{50, 20, 0, 50}, {50, 20, 5, 50}, {200, 150, 10, 100}, {1000, 300, 40, 20000}, {20000, 500, 3, 1000}, {8, 7, 0, 8}, {4, 2, 1, 64},
+	}
+	for si, sh := range shapes {
+		cache := service.NewReplayCache(sh.n)
+		spec := newReplaySpec(sh.n)
+		id := fmt.Sprintf("key-off-%d", si)
+		var before [][]byte
+		step := func(salt []byte, class string) bool {
+			verdict, dist, m := spec.judge(id, salt)
+			got := cache.Add(id, salt)
+			c.Eval(fmt.Sprintf("offon|shape=%d|%s|%s", si, class, verdict))
+			if verdict == "refuse" && got {
+				c.Violation("C07/replay-accepted-after-history-switched-off-and-on", map[string]any{"sizes": []int{sh.n, 0, sh.n2}, "class": class, "salt": fmt.Sprintf("%x", salt), "intervening_checks": dist, "min_capacity": m})
+				return false
+			}
+			if verdict == "accept" && !got {
+				c.Violation("C07/fresh-handshake-refused-without-collision", map[string]any{"sizes": []int{sh.n, 0, sh.n2}, "class": class, "salt": fmt.Sprintf("%x", salt)})
+				return false
+			}
+			if verdict == "refuse" && class == "replay-of-before" {
+				c.Count("refusals_across_switch_off", 1)
+			}
+			return true
+		}
+		for i := 0; i < sh.before; i++ {
+			b := randBytes(r, 32)
+			before = append(before, b)
+			if !step(b, "before") {
+				return
+			}
+		}
+		cache.Resize(0)
+		spec.resize(0)
+		for i := 0; i < sh.off; i++ {
+			if !step(randBytes(r, 32), "while-off") {
+				return
+			}
+		}
+		if sh.off > 0 && !step(before[len(before)-1], "replay-while-off") {
+			return
+		}
+		cache.Resize(sh.n2)
+		spec.resize(sh.n2)
+		c.Count("resizes", 2)
+		// newest first: each is within the promise as long as the checks since stay below min(n, n2)
+		for i := len(before) - 1; i >= 0 && len(before)-1-i < 12; i-- {
+			if !step(before[i], "replay-of-before") {
+				return
+			}
 		}
 	}
 }
@@ -434,6 +512,7 @@ func init() {
 		Run: func(c *vk.Ctx) {
 			c.Require("seq_must_refuse")
 			c.Require("seq_must_accept")
+			c.Require("refusals_across_switch_off")
 			c.Require("porcupine_ok")
 			c.Require("direct_duplicate_rounds")
 			c.Require("process_replays_refused_across_reload")
@@ -443,6 +522,7 @@ func init() {
 			c.Require("e2e_replays_with_altered_continuation_refused")
 			if c.Batch%2 == 0 {
 				c07Sequential(c)
+				c07OffAndOn(c)
 			} else {
 				c07Concurrent(c, c.N(300, 1500))
 			}
